@@ -11,6 +11,14 @@ Correspondence
       with the Lean `reorderArgs`/`marginalOrder`/range placement.
 Oracle / partial clauses (runtime): pdf >= 0, = product of independent scalar leaf pdfs;
 quadrature of pdf ~ 1 and ~ cdf; marginal_cdf(marginal_icdf(p)) ~ p within DKW.
+  (C) one shipped-family and one rational-double 2-D model per run: normalisation, cdf value, rows in one call,
+      marginal round trip, VALUES of marginal_pdf (3 points, one call) / marginal_cdf against an independent
+      quadrature of f0(t) f1(x|t) / f0(t) F1(x|t) over constructed leaves, integer x.
+  (D) VALUE oracles on light-tailed exponential doubles (ExpDist; closed-form / independent-quadrature reference):
+      marginal_pdf / marginal_cdf (several unsorted points per call; array, list, integer array), cdf (2-D and 3-D;
+      list, row vector, integer forms, rows at and below 0), the unconditional shortcut of marginal_pdf / cdf / icdf
+      (also for a later unconditional dimension), marginal_icdf in the bulk and the tails with default and explicit
+      precision_factor (Bernstein band; sample size drawn vs the documented size = correspondence).
 """
 import math
 import warnings
@@ -292,11 +300,11 @@ def process_integrals(ck, rng, table, slow_s=4.0):
     bad = []
     with np.errstate(all="ignore"), warnings.catch_warnings():
         warnings.simplefilter("ignore")
-        if table:
-            tot, _ = integrate.nquad(lambda y, x: float(model.pdf([[x, y]])[0]), [(0, np.inf), (0, np.inf)],
-                                     opts={"limit": 60})
-            if abs(tot - 1) > 2e-4:
-                bad.append(("pdf_integrates_to_one", f"integral {tot!r}"))
+        tot, _ = integrate.nquad(lambda y, x: float(model.pdf([[x, y]])[0]), [(0, np.inf), (0, np.inf)],
+                                 opts={"limit": 60})
+        ck.count("C_normalisation mode=" + ("table" if table else "doubles"))
+        if abs(tot - 1) > (2e-4 if table else 1e-6):
+            bad.append(("pdf_integrates_to_one", f"integral {tot!r}"))
         smp = model.draw_sample(4000, random_state=int(rng.integers(0, 2**31)))
         x = np.array([[float(np.quantile(smp[:, 0], 0.6)), float(np.quantile(smp[:, 1], 0.7))]])
         t_cdf = time.time()
@@ -600,7 +608,7 @@ def gen_value_cases(rng, thorough):
     conds2 = doubles.all_structures(2)
     conds3 = doubles.all_structures(3)
     cases = []
-    for cond in conds2:
+    for cond in conds2 + [[None, 0]]:
         cases.append((cond, "full"))
     order3 = list(rng.permutation(len(conds3)))
     n3 = len(conds3) if thorough else 2
@@ -609,17 +617,23 @@ def gen_value_cases(rng, thorough):
     if thorough:
         for cond in conds2 * 3:
             cases.append((cond, "full"))
+    # marginal_icdf requests, rotated over the cases that have a conditional dimension so that every run has the
+    # tail / large-sample branch (n > 100000) and an explicitly passed precision_factor
+    specs = [lambda: {"p": [float(rng.choice([1e-4, 2e-4, 5e-4])), 0.5, float(rng.choice([0.99, 0.999]))], "precision_factor": 1.0},
+             lambda: {"p": [0.05, float(rng.uniform(0.3, 0.7)), 0.9], "precision_factor": float(rng.choice([100.0, 250.0]))},
+             lambda: {"p": [0.5, float(rng.choice([1e-3, 2e-3])), 0.9], "precision_factor": float(rng.choice([0.5, 3.0]))},
+             lambda: {"p": [float(rng.uniform(0.02, 0.98))], "precision_factor": 1.0}]
+    k_cond = 0
     for cond, what in cases:
         m = random_exp_model(rng, cond)
         seed = int(rng.integers(0, 2**31))
+        spec = specs[k_cond % len(specs)]()
+        if any(c is not None for c in cond):
+            k_cond += 1
         yield {"part": "D", "what": what, "model": m.describe(), "seed": seed,
                "xform": str(rng.choice(["array", "list", "intarray"])),
                "cdf_form": str(rng.choice(["list2d", "row1d", "rowlist", "intarray", "intlist"])),
-               "icdf": {"p": [float(rng.choice([1e-4, 2e-4, 5e-4])), 0.5, float(rng.choice([0.99, 0.999]))],
-                        "precision_factor": float(rng.choice([0.5, 1.0, 3.0]))}
-               if rng.integers(0, 2) else
-               {"p": [0.05, float(rng.uniform(0.3, 0.7)), 0.9], "precision_factor": float(rng.choice([1.0, 100.0]))},
-               "thorough": bool(thorough)}
+               "icdf": spec, "thorough": bool(thorough)}
 
 
 def process_values(ck, case):
@@ -776,15 +790,24 @@ def process_values(ck, case):
 def main(ck):
     rng = np.random.default_rng(ck.seed)
     thorough = ck.tier == "thorough"
-    ck.rule = ("(A) pdf of random hierarchical models (n_dim 2-4, doubles and shipped families) at random points in "
-               "six input forms (2-D array, nested list, 1-D row, row list, integer list, integer array); (B) nquad "
-               "argument placement for cdf / marginal_pdf / marginal_cdf over all (n_dim <= 4, dim) pairs; (C) a few "
-               "quadrature / Monte-Carlo consistency runs; non-trivial = model with a dependent parameter; distinct by SHA1")
+    ck.rule = ("(A) pdf of random hierarchical models (n_dim 2-4, doubles and shipped families) at random points "
+               "(incl. 0 and negative values) in six input forms (2-D array, nested list, 1-D row, row list, integer "
+               "list, integer array); (B) nquad argument placement for cdf / marginal_pdf / marginal_cdf over all "
+               "(n_dim <= 4, dim) pairs; (C) quadrature / Monte-Carlo consistency and marginal values on one shipped-"
+               "family and one rational-double 2-D model (6 each in thorough); (D) values of marginal_pdf / "
+               "marginal_cdf / cdf / marginal_icdf on exponential doubles: every 2-D structure, 2 (thorough: all 9) "
+               "3-D structures; non-trivial = model with a dependent parameter; distinct by SHA1")
     ck.assumptions = ["leaf pdfs of shipped families are TABLE'd from constructed template instances",
                       "scipy.integrate.nquad integrates argument k over ranges[k] (its documented contract)"]
-    ck.partial = {"cdf equals the integral of pdf": "nquad accuracy is runtime behaviour; validated on a few points per run",
-                  "pdf integrates to one (continuous case)": "proved for finite supports (mass_one_discrete); quadrature validated at runtime",
-                  "marginal_cdf(marginal_icdf(p)) = p": "Monte-Carlo; validated with a DKW band at runtime"}
+    ck.partial = {"cdf equals the integral of pdf": "the code's cdf is the iterated integral handed to nquad (placement proven, "
+                  "Fubini for 2-D proven); its numerical VALUE is observed: compared per run with closed-form / independent-"
+                  "quadrature references on exponential doubles (2-D, 3-D) and one shipped-family model",
+                  "pdf integrates to one (continuous case)": "proved for finite supports (mass_one_discrete) and for the mathematical "
+                  "iterated integral (mass_one_iterated, not tied to the code); quadrature of the code's pdf observed per run",
+                  "marginal_pdf / marginal_cdf values": "observed per run against independent references (several points per call)",
+                  "marginal_cdf(marginal_icdf(p)) = p": "Monte-Carlo; observed with a Bernstein/DKW band (error probability 1e-12) at "
+                  "bulk and tail probabilities; sample size vs documented size is a Python-side correspondence",
+                  "marginal_* of an unconditional dimension": "observed: equal to the dimension's own distribution, no sample drawn"}
     for case in gen_pdf_cases(rng, 4000 if thorough else 500):
         process_pdf(ck, case)
     for n_dim in (2, 3, 4):
